@@ -40,6 +40,7 @@ WHAT = 'OnceFunction invoke/destroy exactly once, aligned storage, block returne
 NOTE = ['-noGenerateSpecTE']
 SRCS = ['harness/drv/drv_oncefn.cpp', 'harness/ctl/ctl.cpp']
 WRAP = ['-Wl,--wrap=malloc,--wrap=free']
+ROT = 11 * 9 + 1     # callable types of the driver's rotation: Callable<S, A> (bytes[S]) + the member-less callable
 
 
 def _flags():
@@ -54,8 +55,8 @@ def _types_covered(ctx, tot, out, label):
         raise vlib.ToolError('driver run "%s" printed no CREATES line' % label)
     creates, types = int(m.group(1)), int(m.group(2))
     ctx.cov.setdefault('creates', {})[label] = creates
-    if types != 99:
-        raise vlib.ToolError('driver has %d callable types, expected 11 x 9 = 99' % types)
+    if types != ROT:
+        raise vlib.ToolError('driver has %d callable types, expected 11 x 9 + 1 = %d' % (types, ROT))
     return creates
 
 
@@ -107,6 +108,25 @@ def _explain(trace, line):
         return
     if ev.get('e') not in ('Call', 'Cleanup') or 'out' not in prev:
         return
+    c = ev.get('id', 0)
+    if c and len(ev.get('dtor', [])) >= c and ev['dtor'][c - 1] != 1:
+        vlib.log('  diagnosis: %s consumed callable %d, which was destroyed %d times by then (exactly once is '
+                 'required; still alive: %d, invoked: %d)'
+                 % ('operator()' if ev['e'] == 'Call' else 'cleanupNotRun()', c, ev['dtor'][c - 1],
+                    ev['live'][c - 1], ev['inv'][c - 1]))
+        for k in range(line - 2, -1, -1):     # its Create line: which type
+            try:
+                cr = json.loads(lines[k])
+            except Exception:
+                break
+            if cr.get('e') == 'Reset':
+                break
+            if cr.get('e') == 'Create' and cr.get('id') == c:
+                vlib.log('  diagnosis: the callable has sizeof %d, alignof %d, storage %s%s'
+                         % (cr['size'], cr['align'], cr['kind'],
+                            ', NO data members (std::is_empty) and a destructor that books through statics'
+                            if cr.get('empty') else ''))
+                break
     why = []
     if 'iout' in ev and (ev['iout'] != prev['out'] or ev['ilout'] != prev['lout']):
         why.append('the callable\'s block was already released when operator() ran (outstanding inside operator() '
@@ -155,7 +175,7 @@ def run(ctx):
     tot, out = ctx.driver(exe, ['--out', tr, '--schedules', sched, '--passes', passes, '--seed', ctx.seed], WHAT,
                           label='cover replay')
     creates = _types_covered(ctx, tot, out, 'cover replay')
-    if tot and creates < 2 * 99:
+    if tot and creates < 2 * ROT:
         raise vlib.ToolError('cover replay created only %d callables: the type rotation did not go round twice'
                              % creates)
     cover_execs = tot.get('completed', 0)
@@ -174,18 +194,28 @@ def run(ctx):
     tot, out = ctx.driver(exe, ['--out', tr3, '--reentrant', '--seed', ctx.seed + 3], WHAT,
                           label='re-entrant payloads, every type x consume path')
     _types_covered(ctx, tot, out, 're-entrant payloads')
-    if tot and tot.get('completed', 0) != (99 + 2) * 2 * 5:
+    if tot and tot.get('completed', 0) != (ROT + 2) * 2 * 5:
         raise vlib.ToolError('re-entrant run completed %r executions, expected %d'
-                             % (tot.get('completed'), (99 + 2) * 2 * 5))
+                             % (tot.get('completed'), (ROT + 2) * 2 * 5))
     reent_execs = tot.get('completed', 0)
     # the rotation of the cover replay and the random run must have produced all three payload modes
     modes = {}
-    for t in (tr, tr2):
+    empties = {}      # member-less callables (the only type of sizeof 1 that is created from the 100th slot of the
+                      # rotation; the driver's static_assert guarantees std::is_empty): per trace, per payload mode
+    for name, t in (('cover', tr), ('random', tr2), ('reentrant', tr3)):
         with open(t) as f:
             for line in f:
                 if '"e":"Create"' in line:
                     m = re.search(r'"re":(\d)', line)
-                    modes[m.group(1) if m else '?'] = modes.get(m.group(1) if m else '?', 0) + 1
+                    if name != 'reentrant':
+                        modes[m.group(1) if m else '?'] = modes.get(m.group(1) if m else '?', 0) + 1
+                    if '"empty":1' in line:
+                        empties.setdefault(name, {}).setdefault(m.group(1) if m else '?', 0)
+                        empties[name][m.group(1) if m else '?'] += 1
+    ctx.cov['memberless_callables'] = empties
+    if cover_execs and (not empties.get('cover') or len(empties.get('reentrant', {})) != 2):
+        raise vlib.ToolError('member-less callables created: %r, expected some in the cover replay and both '
+                             're-entrant modes in the directed run' % empties)
     ctx.cov['payload_modes'] = modes
     if cover_execs and set(modes) != {'0', '1', '2'}:
         raise vlib.ToolError('payload modes in the cover/random traces: %r, expected plain + 2 re-entrant' % modes)
